@@ -176,8 +176,8 @@ def core_program(r, depth=0, in_loop=False, counter=[0]):
                 out.append(['expr', f'({g.expr(2)})'])
         elif c < 0.7:
             nb = r.choice([1, 1, 2, 3])
-            branches = [[g.expr(2), core_program(r, depth + 1, in_loop, counter)] for _ in range(nb)]
-            els = core_program(r, depth + 1, in_loop, counter) if r.random() < 0.5 else None
+            branches = [[g.expr(2), core_program(r, depth + 1, in_loop, counter) if r.random() > 0.12 else []] for _ in range(nb)]
+            els = (core_program(r, depth + 1, in_loop, counter) if r.random() > 0.12 else []) if r.random() < 0.5 else None
             out.append(['if', branches, els])
         else:
             counter[0] += 1
